@@ -10,6 +10,7 @@ thanks!
 __all__ = ['Profiles']
 
 from cssutils import util
+import functools
 import re
 
 
@@ -17,6 +18,34 @@ class NoSuchProfileException(Exception):
     """Raised if no profile with given name is found"""
 
     pass
+
+
+def _atomic(method):
+    """Leave the registry as it was if `method` raises, e.g. because a
+    property or macro uses a macro which is not defined."""
+
+    @functools.wraps(method)
+    def wrapper(self, *args, **kwargs):
+        saved = (
+            self._usedMacros.copy(),
+            list(self._profileNames),
+            dict(self._rawProfiles),
+            dict(self._profilesProperties),
+            list(self._knownNames),
+        )
+        try:
+            return method(self, *args, **kwargs)
+        except Exception:
+            self._usedMacros = saved[0]
+            self._profileNames[:] = saved[1]
+            self._rawProfiles.clear()
+            self._rawProfiles.update(saved[2])
+            self._profilesProperties.clear()
+            self._profilesProperties.update(saved[3])
+            self._knownNames = saved[4]
+            raise
+
+    return wrapper
 
 
 class Profiles:
@@ -111,6 +140,7 @@ class Profiles:
         self._rawProfiles = {}
         # already compiled profiles: {profile: {property: checkfunc, ...}, ...}
         self._profilesProperties = {}
+        self._knownNames = []
 
         self._defaultProfiles = None
 
@@ -241,6 +271,7 @@ class Profiles:
         # save
         self._usedMacros = macros
 
+    @_atomic
     def addProfiles(self, profiles):
         """Add a list of profiles at once. Useful as if profiles define custom
         macros these are used in one go. Using `addProfile` instead my be
@@ -264,6 +295,7 @@ class Profiles:
             self._resetProperties()
             self.__update_knownNames()
 
+    @_atomic
     def addProfile(self, profile, properties, macros=None):
         """Add a new profile with name `profile` (e.g. 'CSS level 2')
         and the given `properties`.
@@ -325,6 +357,7 @@ class Profiles:
 
         self.__update_knownNames()
 
+    @_atomic
     def removeProfile(self, profile=None, all=False):
         """Remove `profile` or remove `all` profiles.
 
